@@ -143,7 +143,13 @@ fn issue_one<C: SimColor>(top: &mut DynTarget<'_, C>, op: &TOp) -> Result<(), Si
                 let a = crate::erased::rect_of(area);
                 let it = colours.iter().map(|c| C::from_u32(*c));
                 match repeat {
-                    Some(r) => top.fill_contiguous(&a, it.chain(core::iter::repeat(C::from_u32(*r)))),
+                    Some(r) => {
+                        // an endless stream: only consumers that stop by themselves are legal for it
+                        crate::erased::set_colour_fold(false);
+                        let res = top.fill_contiguous(&a, it.chain(core::iter::repeat(C::from_u32(*r))));
+                        crate::erased::set_colour_fold(true);
+                        res
+                    }
                     None => top.fill_contiguous(&a, it),
                 }
             }
@@ -340,6 +346,8 @@ fn run_history<C: SimColor>(sc: &Scenario, opts: &Opts) -> RunOut {
         let calls_before = dev.st.calls.len();
         dev.st.guard = m.guard(level);
         dev.st.guard_violation = None;
+        crate::dev::take_hint_breach();
+        crate::dev::take_unbounded_abort();
 
         let mut v = OpVisitor { ops: &tops, boxes: Vec::new(), top_box_after: None };
         let run_op = !crop_empty;
@@ -369,6 +377,12 @@ fn run_history<C: SimColor>(sc: &Scenario, opts: &Opts) -> RunOut {
             r.map(|_| Ok(()))
         };
         out.sub_evals += 1;
+        if crate::dev::take_unbounded_abort() {
+            // an unbounded internal-iteration consumer met a stream that did not end: legal for the
+            // library (fill_contiguous takes endless streams), so nothing can be concluded
+            out.skipped = Some("unbounded_consumer_met_endless_stream");
+            break;
+        }
 
         for c in &dev.st.calls[calls_before..] {
             use crate::dev::Method;
@@ -465,6 +479,14 @@ fn run_history<C: SimColor>(sc: &Scenario, opts: &Opts) -> RunOut {
             if reaching.iter().any(|(x, y, _)| !dev_r.contains(*x, *y)) {
                 everything_inside = false;
                 out.probes |= probe("device_clips_writes");
+            }
+        }
+        if run_op && viol.is_none() {
+            // (3) a parent may size or stop its transfer by size_hint(): the streams the adapters hand
+            // down must not contradict their own hints, or such a parent does not end up "exactly as if
+            // the operation had been applied to it directly"
+            if let Some(b) = crate::dev::take_hint_breach() {
+                viol = Some(mk("size_hint_contradicted", b));
             }
         }
         trace.u64(dev.st.trace.finish());
